@@ -43,6 +43,22 @@ def gen(t):
     a('w_setfov', '%s& f, const %s& n, const %s& fa, const %s& fx, const %s& fy, const %s& as' % (F, E, E, E, E, E), 'f.set(n, fa, fx, fy, as);')
     a('w_window', '%s& o, const %s& f, const %s& l, const %s& r, const %s& tp, const %s& b' % (F, F, E, E, E, E), 'o = f.window(l, r, tp, b);')
     a('w_mnf', '%s& f, const %s& n, const %s& fa' % (F, E, E), 'f.modifyNearAndFar(n, fa);')
+    for i_, nm_ in enumerate(('nearPlane', 'farPlane', 'left', 'right', 'top', 'bottom')):
+        a('w_get_%s' % nm_, '%s& o, const %s& f' % (E, F), 'o = f.%s();' % nm_, member=i_)
+    a('w_get_hither', '%s& o, const %s& f' % (E, F), 'o = f.hither();', member=0)
+    a('w_get_yon', '%s& o, const %s& f' % (E, F), 'o = f.yon();', member=1)
+    a('w_get_ortho', 'bool& o, const %s& f' % F, 'o = f.orthographic();')
+    a('w_fovx', '%s& o, const %s& f' % (E, F), 'o = f.fovx();')
+    a('w_fovy', '%s& o, const %s& f' % (E, F), 'o = f.fovy();')
+    a('w_eq', 'bool& o, const %s& f, const %s& g' % (F, F), 'o = (f == g);')
+    a('w_ne', 'bool& o, const %s& f, const %s& g' % (F, F), 'o = (f != g);')
+    a('w_degenerate', 'bool& o, const %s& f' % F, 'o = f.degenerate();')
+    a('w_setortho', '%s& f, const bool& b' % F, 'f.setOrthographic(b);')
+    a('w_ctor7', '%s& o, const %s& n, const %s& fa, const %s& l, const %s& r, const %s& tp, const %s& b, const bool& oo' % (F, E, E, E, E, E, E), 'o = %s(n, fa, l, r, tp, b, oo);' % F)
+    a('w_set7', '%s& o, const %s& n, const %s& fa, const %s& l, const %s& r, const %s& tp, const %s& b, const bool& oo' % (F, E, E, E, E, E, E), 'o.set(n, fa, l, r, tp, b, oo);')
+    a('w_ctor5', '%s& o, const %s& n, const %s& fa, const %s& fx, const %s& fy, const %s& as' % (F, E, E, E, E, E), 'o = %s(n, fa, fx, fy, as);' % F)
+    a('w_copy', '%s& o, const %s& f' % (F, F), '%s g(f); o = g;' % F)
+    a('w_default', '%s& o' % F, 'o = %s();' % F)
     a('w_ft_set', '%s& ft, const %s& f, const %s& m' % (FT, F, M4), 'ft.setFrustum(f, m);')
     a('w_ft_vis_pt', 'bool& o, const %s& ft, const %s& p' % (FT, V3), 'o = ft.isVisible(p);')
     a('w_ft_vis_box', 'bool& o, const %s& ft, const Box<%s >& b' % (FT, V3), 'o = ft.isVisible(b);')
@@ -299,6 +315,119 @@ def main(rep, ws, tier):
             if n_ < 2: return ('no feasible case', None, fn_where(S.fn))
             return (None, 'near = n, far = f; perspective window scaled by n / near, orthographic window kept (%d cases)' % n_, fn_where(S.fn))
         ob('modifyNearAndFar', 'R16.proj', modnf)
+
+        def members():
+            # accessors, constructors, comparison and the degenerate() predicate: which members they read, write and compare
+            nm = ['near', 'far', 'left', 'right', 'top', 'bottom']
+            def mem(base, i): return fr_in(base, i, t)
+            def flag_of(x, base):
+                b = ortho_in(base, t)
+                if x is b: return True
+                return x.op in ('and', 'trunc', 'zext', 'icmp') and any(flag_of(y, base) or (y.op == 'const') for y in x.args) and any(flag_of(y, base) for y in x.args)
+            for name, m_ in tu.meta.items():
+                if 'member' in m_:
+                    S = S_(name); o = S.out('a0', 0, sz, lt)
+                    if o is not mem('a1', m_['member']): return ('%s() returns %s, not the %s member' % (name[6:], T.show(o, 3)[:80], nm[m_['member']]), None, fn_where(S.fn))
+            S = S_('w_get_ortho')
+            if not flag_of(S.out('a0', 0, 1, 'i8'), 'a1'): return ('orthographic() does not return the projection flag', None, fn_where(S.fn))
+            # fovx / fovy: the angle between the left and right (bottom and top) edges of the window seen from the eye
+            for name, hi, lo in (('w_fovx', 3, 2), ('w_fovy', 4, 5)):
+                S = S_(name); o = S.out('a0', 0, sz, lt)
+                want = T.binop('fadd', T.call('atan2', [mem('a1', hi), mem('a1', 0)], lt), T.fneg(T.call('atan2', [mem('a1', lo), mem('a1', 0)], lt)), lt)
+                if not (o is want or T.equiv(o, want, 20000)):
+                    return ('%s() is %s, expected atan2(%s, near) - atan2(%s, near)' % (name[2:], T.show(o, 4)[:160], nm[hi], nm[lo]), None, fn_where(S.fn))
+            # operator== / != : true exactly when all seven members agree
+            def truth(S_eq, assign):
+                o = S_eq.out('a0', 0, 1, 'i8')
+                conds = P.all_conds(o)
+                return conds, o
+            S = S_('w_eq'); So = S.out('a0', 0, 1, 'i8'); Sn = S_('w_ne').out('a0', 0, 1, 'i8')
+            pairs = {}
+            for c in set(P.all_conds(So)) | set(P.all_conds(Sn)):
+                if c.op == 'fcmp' and c.attr in ('oeq', 'une', 'one') and c.args[0].op == 'in' and c.args[1].op == 'in':
+                    offs = sorted((a_.attr[0], a_.attr[1]) for a_ in c.args)
+                    if offs[0][1] == offs[1][1] and {offs[0][0], offs[1][0]} == {'a1', 'a2'}: pairs[c] = (offs[0][1] - 8) // sz
+            if sorted(set(pairs.values())) != list(range(6)) or len(pairs) != len(set(P.all_conds(So)) | set(P.all_conds(Sn))):
+                return ('operator== compares the members %s of the two frusta; all of near, far, left, right, top, bottom (and the projection kind) have to be compared with their counterparts' % sorted(set(pairs.values())), None, fn_where(S.fn))
+            fa_, fb_ = ortho_in('a1', t), ortho_in('a2', t)
+            def ev_int(x, env):
+                if x is T.TRUE: return 1
+                if x is T.FALSE: return 0
+                if x.op == 'const': return x.attr[1]
+                if x.op == 'in':
+                    if x is fa_ or x is fb_: return env[x]
+                    raise PC.Undecided('the comparison reads %s' % T.show(x, 2))
+                a_ = [ev_int(y, env) for y in x.args]
+                if x.op == 'and': return a_[0] & a_[1]
+                if x.op == 'or': return a_[0] | a_[1]
+                if x.op == 'xor': return a_[0] ^ a_[1]
+                if x.op in ('zext', 'trunc'): return a_[0] & ((1 << int(x.ty[1:])) - 1)
+                if x.op == 'not': return 1 - (a_[0] & 1)
+                if x.op == 'icmp': return int({'eq': a_[0] == a_[1], 'ne': a_[0] != a_[1]}[x.attr])
+                if x.op == 'ite': return a_[1] if a_[0] else a_[2]
+                raise PC.Undecided('operator %s in the flag comparison' % x.op)
+            def val(o, differ):
+                asg = {}
+                for c, i in pairs.items():
+                    same = i != differ
+                    asg[c] = same if c.attr in ('oeq', 'eq') else (not same)
+                r = T.resolve(o, asg)
+                # the projection kind is compared arithmetically (bytes): evaluate on the flag values
+                vals = set()
+                for x_, y_ in ((0, 0), (1, 1)) if differ != 6 else ((0, 1), (1, 0)):
+                    vals.add(bool(ev_int(r, {fa_: x_, fb_: y_}) & 1))
+                if len(vals) != 1: raise PC.Undecided('comparison result depends on the flag value itself')
+                return vals.pop()
+            for differ in [None] + list(range(7)):
+                e_, n_ = val(So, differ), val(Sn, differ)
+                if e_ != (differ is None) or n_ != (differ is not None):
+                    return ('with %s: operator== gives %s, operator!= gives %s' % ('all members equal' if differ is None else 'only %s different' % (nm + ['projection kind'])[differ], e_, n_), None, fn_where(S.fn))
+            # degenerate(): near == far or left == right or top == bottom
+            S = S_('w_degenerate'); o = S.out('a0', 0, 1, 'i8')
+            dp = {}
+            for c in P.all_conds(o):
+                if c.op == 'fcmp' and c.attr in ('oeq', 'une', 'one') and all(a_.op == 'in' and a_.attr[0] == 'a1' for a_ in c.args):
+                    dp[c] = tuple(sorted((a_.attr[1] - 8) // sz for a_ in c.args))
+            if sorted(dp.values()) != [(0, 1), (2, 3), (4, 5)] or len(dp) != len(P.all_conds(o)):
+                return ('degenerate() tests the member pairs %s; a frustum is degenerate when near == far, left == right or top == bottom' % sorted(dp.values()), None, fn_where(S.fn))
+            for which in [None, (0, 1), (2, 3), (4, 5)]:
+                asg = {c: ((pr == which) if c.attr == 'oeq' else (pr != which)) for c, pr in dp.items()}
+                r = T.resolve(o, asg)
+                got = bool(r.attr[1] & 1) if r.op == 'const' else (True if r is T.TRUE else False if r is T.FALSE else None)
+                if got != (which is not None): return ('degenerate() is %s when %s' % (got, 'no pair coincides' if which is None else 'only members %s and %s coincide' % (nm[which[0]], nm[which[1]])), None, fn_where(S.fn))
+            # setOrthographic writes the flag only
+            S = S_('w_setortho')
+            for i in range(6):
+                if S.out('a0', 8 + i * sz, sz, lt) is not mem('a0', i): return ('setOrthographic changes the %s member' % nm[i], None, fn_where(S.fn))
+            fl = S.out('a0', 8 + 6 * sz, 1, 'i8')
+            if not any(x.op == 'in' and x.attr[0] == 'a1' for x in [fl] + list(fl.args) + [z for y in fl.args for z in y.args]): return ('setOrthographic does not store its argument in the flag: %s' % T.show(fl, 3)[:80], None, fn_where(S.fn))
+            # constructors: the seven-argument form stores its arguments, as set() does; the fov form is set(near, far, fovx, fovy, aspect);
+            # the copy constructor copies every member; the default frustum is (0.1, 1000, -1, 1, 1, -1, perspective)
+            for name in ('w_ctor7', 'w_set7'):
+                S = S_(name)
+                for i in range(6):
+                    if S.out('a0', 8 + i * sz, sz, lt) is not agg.scalar_in('a%d' % (i + 1), t): return ('%s: the %s member is %s, not argument %d' % (name[2:], nm[i], T.show(S.out('a0', 8 + i * sz, sz, lt), 3)[:80], i + 1), None, fn_where(S.fn))
+                fl = S.out('a0', 8 + 6 * sz, 1, 'i8')
+                if not any(x.op == 'in' and x.attr[0] == 'a7' for x in [fl] + list(fl.args) + [z for y in fl.args for z in y.args]): return ('%s: the projection flag is not the last argument' % name[2:], None, fn_where(S.fn))
+            S5, Ss = S_('w_ctor5'), S_('w_setfov')
+            for i in range(6):
+                a_, b_ = S5.out('a0', 8 + i * sz, sz, lt), Ss.out('a0', 8 + i * sz, sz, lt)
+                if not (a_ is b_ or T.equiv(a_, b_, 50000)): return ('Frustum(near, far, fovx, fovy, aspect) and set(...) disagree on the %s member' % nm[i], None, fn_where(S5.fn))
+            a_, b_ = S5.out('a0', 8 + 6 * sz, 1, 'i8'), Ss.out('a0', 8 + 6 * sz, 1, 'i8')
+            if not (a_ is b_ or T.equiv(a_, b_, 50000)): return ('Frustum(near, far, fovx, fovy, aspect) and set(...) disagree on the projection kind', None, fn_where(S5.fn))
+            S = S_('w_copy')
+            for i in range(6):
+                if S.out('a0', 8 + i * sz, sz, lt) is not mem('a1', i): return ('the copy constructor does not copy the %s member' % nm[i], None, fn_where(S.fn))
+            if not flag_of(S.out('a0', 8 + 6 * sz, 1, 'i8'), 'a1'): return ('the copy constructor does not copy the projection kind', None, fn_where(S.fn))
+            S = S_('w_default')
+            dv = [S.out('a0', 8 + i * sz, sz, lt) for i in range(6)]
+            wantd = [Fraction(1, 10), 1000, -1, 1, 1, -1]
+            for i in range(6):
+                v = T.const_value(dv[i]) if dv[i].op == 'const' else None
+                ok_ = v is not None and (abs(Fraction(v) - wantd[i]) < Fraction(1, 10 ** 6))
+                if not ok_: return ('the default frustum has %s = %s, documented %s' % (nm[i], T.show(dv[i], 2), float(wantd[i])), None, fn_where(S.fn))
+            return (None, 'accessors return their members (hither/yon = near/far); fovx/fovy = atan2(right,near) - atan2(left,near) / atan2(top,near) - atan2(bottom,near); == / != compare all seven members; degenerate() = near==far | left==right | top==bottom; setOrthographic writes the flag only; constructors agree with set()', fn_where(S_('w_eq').fn))
+        ob('members, accessors, comparison', 'R16.proj', members)
 
         def window():
             S = S_('w_window'); SL = S_('w_s2l')
